@@ -168,7 +168,7 @@ theorem findMatch_eq (song : Song) (m : SAMap) (srcT srcStart : Nat) (src : List
 
 /-- what `find_match` maintains about its loop candidate -/
 def LoopInv (song : Song) (m : SAMap) (srcT srcStart : Nat) (mt : Match) : Prop :=
-  mt.loopLength = 0 ∨ (srcStart < mt.loopPosition ∧
+  mt.loopLength = 0 ∨ (srcStart < mt.loopPosition ∧ minLoopScore ≤ mt.loopLength ∧
     (∃ len0, findMatchLength song m srcT srcStart srcT mt.loopPosition true = .ok (len0, mt.loopLength)) ∧
     ∀ src, song.track? srcT = some src →
       scan ((src.drop (srcStart + 1)).take (mt.loopPosition - srcStart)) 0 = some 0)
@@ -188,7 +188,7 @@ theorem jpSame_spec {song : Song} {m : SAMap} {srcT srcStart dstT : Nat} {isBal 
     (h : jpSame song m srcT srcStart dstT isBal dstPos mt subCount last ld lv = .ok r) :
     ∃ mt' sc' last', r = .yield (mt', sc', last', ld, lv) ∧
       (mt' = mt ∨ (lv = true ∧ ld = 0 ∧ ∃ len0 L, findMatchLength song m srcT srcStart dstT dstPos true = .ok (len0, L) ∧
-        L > mt.loopLength ∧ mt' = { mt with loopLength := L, loopPosition := dstPos })) := by
+        L > mt.loopLength ∧ minLoopScore ≤ L ∧ mt' = { mt with loopLength := L, loopPosition := dstPos })) := by
   unfold jpSame at h
   obtain ⟨x, hx, h⟩ := bind_ok h
   split at h
@@ -197,7 +197,7 @@ theorem jpSame_spec {song : Song} {m : SAMap} {srcT srcStart dstT : Nat} {isBal 
   · split at h
     · rename_i hc
       obtain ⟨sc', last', hr⟩ := jp2Same_spec h
-      exact ⟨_, sc', last', hr, Or.inr ⟨hc.1, hc.2.1, x.1, x.2, hx, hc.2.2.2, rfl⟩⟩
+      exact ⟨_, sc', last', hr, Or.inr ⟨hc.1, hc.2.1, x.1, x.2, hx, hc.2.2.2, hc.2.2.1, rfl⟩⟩
     · obtain ⟨sc', last', hr⟩ := jp2Same_spec h
       exact ⟨mt, sc', last', hr, Or.inl rfl⟩
 
@@ -258,7 +258,7 @@ theorem midBody_step {song : Song} {m : SAMap} {srcT srcStart : Nat} {dst : List
     intro ld' lv' hnew hj
     obtain ⟨mt', sc', last', hr', hmt⟩ := jpSame_spec hj
     refine ⟨_, hr', ⟨?_, ?_⟩, ?_⟩
-    · rcases hmt with h | ⟨h1, h2, len0, L, hf, _, h3⟩
+    · rcases hmt with h | ⟨h1, h2, len0, L, hf, _, hml, h3⟩
       · rw [h]; exact hLI
       · right
         obtain ⟨dn', hd', hs', hlv⟩ := hnew h1
@@ -266,7 +266,7 @@ theorem midBody_step {song : Song} {m : SAMap} {srcT srcStart : Nat} {dst : List
         have hz : dn' = 0 := by omega
         subst hz
         rw [h3]
-        refine ⟨by show srcStart < a; omega, ⟨len0, hf⟩, ?_⟩
+        refine ⟨by show srcStart < a; omega, hml, ⟨len0, hf⟩, ?_⟩
         intro src hsrc
         rw [hdst] at hsrc
         cases hsrc
@@ -274,7 +274,7 @@ theorem midBody_step {song : Song} {m : SAMap} {srcT srcStart : Nat} {dst : List
         simp only [e, htake, scan_append, hsn, Option.bind_some]
         rw [hdn] at hs'
         simpa using hs'
-    · rcases hmt with h | ⟨_, _, _, _, _, _, h3⟩
+    · rcases hmt with h | ⟨_, _, _, _, _, _, _, h3⟩
       · rw [h]; exact hss
       · rw [h3]; exact hss
     · intro hlv'
@@ -386,9 +386,9 @@ theorem findMatch_spec {song : Song} {m : SAMap} {srcT srcStart : Nat} {mt : Mat
     obtain ⟨f1, f2, f3, f4, f5⟩ := hF
     refine ⟨f1, f2, f5, ?_⟩
     intro hne
-    rcases hQ.1 with h0 | ⟨g1, g2, g3⟩
+    rcases hQ.1 with h0 | ⟨g1, gm, g2, g3⟩
     · rw [f4] at hne; exact absurd h0 hne
-    · exact ⟨by rw [f2, f3]; exact g1, by omega,
+    · exact ⟨by rw [f2, f3]; exact g1, by omega, by rw [f4]; exact gm,
         by rw [f1, f2, f3, f4]; exact g2, by rw [f1, f2, f3]; exact g3⟩
 
 end Ctrmml.OptSteps
